@@ -51,7 +51,10 @@ static polyseed_data* obtain(pv_rng* rng, const pv_mseed* m, int how, unsigned c
         uint8_t script[19]; memcpy(script, m->secret, 19); script[18] |= (uint8_t)(pv_randn(rng, 4) << 6);
         pv_set_rand_script(script, 19);
         pv_w->time_value = pv_m_birthday_time(m->birthday) + pv_randn(rng, (uint32_t)PV_STEP);
-        int st = pv_api_create(m->features, &s);
+        /* "only the least significant 3 bits are used": higher argument bits must not reach the seed, and so not the salt */
+        unsigned arg = m->features;
+        if (pv_randn(rng, 2)) { static const unsigned HI[] = { 0x8u, 0x10u, 0x18u, 0x20u, 0x100u, 0x400u, 0x8000u, 0x10000u, 0x80000000u, 0xFFFFFFF8u }; arg |= pv_randn(rng, 3) ? HI[pv_randn(rng, sizeof HI / sizeof *HI)] : ((uint32_t)pv_rand64(rng) & ~7u); PV_COUNT("paths.created_with_high_argument_bits", 1); }
+        int st = pv_api_create(arg, &s);
         pv_set_rand_prng();
         return st == POLYSEED_OK ? s : NULL; }
     case 1: return pv_seed_from_model(m);
